@@ -4,18 +4,21 @@ Require Import HP1 Cao1 Rooms F32 Rooms18 RoomsModel CorrSel CorrNode.
 Import ListNotations.
 Open Scope nat_scope.
 
-Definition rooms_case := (list pcourse * list (option nat) * list nat * list (list nat) * list kind * list (list nat))%type.
+Definition rooms_case := (list pcourse * list (option nat) * list nat * list (list nat) * list kind * list (list nat) * list kind)%type.
 
 (* bits: 1 size lists = model | 2 C18: every listed size is usable and every course that takes place is offered a room
-   | 4 class: the assignment can be housed | 8 kind names = model | 16 C18: every listed kind has positive quantity and a listed capacity *)
+   | 4 class: the assignment can be housed | 8 kind names = model AND rooms::read = model (kinds in the order after read(), room list)
+   | 16 C18: every listed kind has positive quantity and a listed capacity *)
 Definition check_rooms (c : rooms_case) : N :=
-  let '(pcs, a, rooms, lists, ks, names) := c in
+  let '(pcs, a, rooms, lists, ks, names, raw) := c in
   let courses := map mk_course pcs in let params := mk_params pcs in
   let es := esize32 params in
   let sizes := map (eff_size courses es a) (seq 0 (length courses)) in
   let agree := list_eqb (list_eqb Nat.eqb) lists (possible sizes rooms) in
   let cls := housed_desc sizes rooms in
   let spec := listing_okb sizes rooms lists in
-  let kagree := match ks with [] => true | _ => list_eqb (list_eqb Nat.eqb) names (kind_names ks sizes) end in
+  let kind_eqb (a b : kind) := Nat.eqb (fst (fst a)) (fst (fst b)) && Nat.eqb (snd (fst a)) (snd (fst b)) && Nat.eqb (snd a) (snd b) in
+  let kagree := match ks with [] => true | _ => list_eqb (list_eqb Nat.eqb) names (kind_names ks sizes) &&
+                                                list_eqb kind_eqb ks (kinds_read raw) && list_eqb Nat.eqb rooms (rooms_of_kinds (kinds_read raw)) end in
   let kspec := match ks with [] => true | _ => names_okb ks (possible sizes (rooms_of_kinds ks)) names end in
   ((if agree then 1 else 0) + (if spec then 2 else 0) + (if cls then 4 else 0) + (if kagree then 8 else 0) + (if kspec then 16 else 0))%N.
